@@ -786,7 +786,7 @@ class SV:
         if z3.is_int_value(e):
             return float(e.as_long())
         if z3.is_rational_value(e):
-            return e.numerator_as_long() / e.denominator_as_long()
+            return _ratio(e.numerator_as_long(), e.denominator_as_long())
         raise Unsupported('float() of a symbolic value (would silently concretise)')
 
     def __bool__(self):
@@ -1014,13 +1014,22 @@ def smin(vals):
 # ------------------------------------------------------------------------------------------------
 # exploration
 
+def _ratio(num, den):
+    """num / den as a float, also when both are too large for a float themselves (solver models can hold huge rationals)"""
+    from fractions import Fraction
+    try:
+        return float(Fraction(num, den))
+    except OverflowError:
+        return float('inf') if (num > 0) == (den > 0) else float('-inf')
+
+
 def model_value(m, e):
     """python number for term e under model m (exact rationals become floats)"""
     v = m.eval(e, model_completion=True)
     if z3.is_int_value(v):
         return v.as_long()
     if z3.is_rational_value(v):
-        return v.numerator_as_long() / v.denominator_as_long()
+        return _ratio(v.numerator_as_long(), v.denominator_as_long())
     if z3.is_true(v):
         return True
     if z3.is_false(v):
@@ -1031,10 +1040,10 @@ def model_value(m, e):
         if v.isInf():
             return float('-inf') if v.isNegative() else float('inf')
         r = z3.simplify(z3.fpToReal(v))
-        return r.numerator_as_long() / r.denominator_as_long()      # exact: the value is a double
+        return _ratio(r.numerator_as_long(), r.denominator_as_long())      # exact: the value is a double
     if z3.is_algebraic_value(v):
         a = v.approx(20)
-        return a.numerator_as_long() / a.denominator_as_long()
+        return _ratio(a.numerator_as_long(), a.denominator_as_long())
     raise Unsupported('cannot read model value %s' % v)
 
 
